@@ -362,7 +362,7 @@ def _dumps(v, proto):
 
 
 def shards(tier):
-    per = 900 if tier == "quick" else 6000
+    per = 900 if tier == "quick" else 40000
     out = [{"kind": "first", "n": per, "idx": i} for i in range(12)]
     out += [{"kind": "stack", "n": per, "idx": i} for i in range(4)]
     return out
